@@ -5,9 +5,11 @@
     HTTPProxy.ServeHTTP, dials of the three TCP proxies), and an independent net/netip
     reading of the same rule text and addresses; and, for a basic scheme with a refreshed
     htpasswd file, the history of the file and of the refresh goroutine before a request
-    (case CReload, replayed on Model/BasicReload.v). *)
+    (case CReload, replayed on Model/BasicReload.v); and, for a SET of basic schemes behind one
+    HTTPProxy, the history of requests on the routes of all of them and of their files before a
+    request (case CSchemes, replayed on Model/BasicSchemes.v). *)
 From Coq Require Import String List NArith Bool.
-From Fabio Require Import Lib.Outcome Lib.Bytes Lib.Verdict Model.Access Model.BasicReload.
+From Fabio Require Import Lib.Outcome Lib.Bytes Lib.Verdict Model.Access Model.BasicReload Model.BasicSchemes.
 Import ListNotations.
 Local Open Scope N_scope.
 
@@ -112,6 +114,40 @@ Definition spec_step (s : hfile * list hfile) (h : hstep) : hfile * list hfile :
   | HsInForce => match snd s with c :: _ => (c, []) | [] => s end
   end.
 
+(* ---- histories of a SET of basic schemes behind one HTTPProxy (Model/BasicSchemes.v) ---- *)
+(* what happened before a request: earlier requests (the auth option of the route they were routed
+   to, request.BasicAuth()) and what the harness did to / saw of the file of a named scheme *)
+Inductive set_step :=
+| SsReq (auth : str) (c : bcreds)
+| SsFile (n : str) (h : hstep).
+
+Definition set_files (cfg : schemes_cfg) (hist : list set_step) : list hfile :=
+  map (fun p => bc_file (snd p)) cfg
+  ++ flat_map (fun h => match h with SsFile _ (HsWrite c _) => [c] | _ => [] end) hist.
+Definition set_fuel (cfg : schemes_cfg) (hist : list set_step) : nat :=
+  (8 + fold_right (fun f n => List.length f + n) 0 (set_files cfg hist))%nat.
+
+(* the model replays the history through the machine of the whole set *)
+Definition set_replay_step (fuel : nat) (ss : option scheme_set) (h : set_step) : option scheme_set :=
+  match ss with
+  | None => None
+  | Some ss =>
+      match h with
+      | SsReq auth c => Some (snd (sstep ss (SOn auth (ARequest c))))
+      | SsFile n (HsWrite c mt) => Some (snd (sstep ss (SOn n (AWrite c mt))))
+      | SsFile n HsRemove => Some (snd (sstep ss (SOn n ARemove)))
+      | SsFile n HsBad => sadvance_until is_bad_line fuel ss n
+      | SsFile n HsInForce => sadvance_until is_loaded fuel ss n
+      end
+  end.
+
+(* the reference's book for the scheme the route names: only the steps about THAT scheme's file *)
+Definition set_spec_step (auth : str) (s : hfile * list hfile) (h : set_step) : hfile * list hfile :=
+  match h with
+  | SsFile n hs => if beq n auth then spec_step s hs else s
+  | SsReq _ _ => s
+  end.
+
 Inductive case :=
 (* the real Route.addTarget on opts {allow, deny}: parsed rule map, whether ProcessAccessRules
    returned an error, and per probe address (impl denyByIP, netip reference admits) *)
@@ -146,7 +182,16 @@ Inductive case :=
    bad-line callback, i.e. between noticing the change and the swap); [nreq] = requests served
    earlier in the history; [cr] = request.BasicAuth() of this request; observables as in CHttp *)
 | CReload (redirect : N) (auth : str) (init : hfile) (mt0 : N) (hist : list hstep) (nreq : N) (cr : bcreds)
-          (status hits : N) (has_location : bool).
+          (status hits : N) (has_location : bool)
+(* one request of a history against ONE HTTPProxy whose AuthSchemes were loaded by the real
+   auth.LoadAuthSchemes from [cfg] (name -> realm, htpasswd content, ModTime; several schemes, realms
+   equal or not) and whose table (the real route.NewTable) has one route per scheme, a route naming
+   an unknown scheme and a route without auth option: [hist] = the requests served before (on
+   whichever route) and what happened to the schemes' files; [auth] = the auth option of the route
+   this request is routed to; [cr] = its request.BasicAuth(); observables as in CHttp plus
+   [challenge] = the realm announced in the WWW-Authenticate header of the answer, if any *)
+| CSchemes (redirect : N) (cfg : schemes_cfg) (hist : list set_step) (auth : str) (cr : bcreds)
+           (status hits : N) (has_location : bool) (challenge : option str).
 
 Definition check_case (c : case) : N :=
   match c with
@@ -296,6 +341,49 @@ Definition check_case (c : case) : N :=
                   else if negb acceptable then status =? 401 else true in
       (* the reference reads a file as a set of (user, password) lines: no user twice *)
       let sane := forallb (fun f => str_nodup (users_of f)) (hist_files init hist) && negb (is_nil auth) in
+      if negb sane then v_disagree else
+      verdict same spec None true
+  | CSchemes redirect cfg hist auth cr status hits has_location challenge =>
+      let fuel := set_fuel cfg hist in
+      let ss := fold_left (set_replay_step fuel) hist (Some (sboot cfg)) in
+      let remote := [49; 57; 50; 46; 48; 46; 50; 46; 55; 58; 52; 55; 49; 49] in     (* 192.0.2.7:4711 *)
+      let m_obs := match ss with
+                   | None => (0, 99, false, None)
+                   | Some ss =>
+                       let chal := route_challenge auth ss cr in
+                       match serve_http (fun _ => None) (fun _ => Some (firstn 9 remote)) bcreds
+                               (Some {| t_rules := no_rules; t_auth := auth; t_redirect := redirect |})
+                               (set_table ss) remote [] cr with
+                       | [ERespond s] => (s, 0, false, chal)
+                       | [ERedirect c] => (c, 0, true, chal)
+                       | [EUpstream] => (200, 1, false, chal)
+                       | _ => (0, 99, false, chal)
+                       end
+                   end in
+      let '(m_status, m_hits, m_loc, m_chal) := m_obs in
+      let same := (m_status =? status) && (m_hits =? hits) && Bool.eqb m_loc has_location
+                  && opt_eqb beq m_chal challenge in
+      (* THE PROPERTY on the implementation's observables: forwarded (or redirected) only if the
+         route names no scheme, or names a configured scheme whose OWN file - the content last seen
+         in force or, while a change is pending, one of the pending contents - accepts the
+         credentials; otherwise 401 and no upstream.  The other schemes' files, the realms and the
+         requests served before do not occur in it. *)
+      let acceptable :=
+          is_nil auth ||
+          match sget cfg auth with
+          | None => false
+          | Some k =>
+              let '(stable, pending) := fold_left (set_spec_step auth) hist (bc_file k, []) in
+              existsb (fun f => file_accepts_b f cr) (stable :: pending)
+          end in
+      let contacted := negb (hits =? 0) in
+      let redirected := negb (redirect =? 0) && (status =? redirect) && has_location in
+      let spec := if contacted || redirected then acceptable
+                  else if negb acceptable then status =? 401 else true in
+      (* the reference reads a file as a set of (user, password) lines: no user twice; a Go map has
+         every scheme name once *)
+      let sane := forallb (fun f => str_nodup (users_of f)) (set_files cfg hist)
+                  && str_nodup (map fst cfg) in
       if negb sane then v_disagree else
       verdict same spec None true
   end.
